@@ -134,18 +134,46 @@ class C09(core.Property):
     hypotheses = ["grant_at_most_once: call ids in the operation list are pairwise distinct (they name distinct calls)",
                   "held_le_limit and the second half of served_if_released: FixedCap ops (no set_capacity in the interleaving); with set_capacity the bound is "
                   "restated as no_grant_while_overcommitted + overcommit_only_by_set_capacity, conservation and release_never_exceeds hold unconditionally",
-                  "0 < capacity, 0 < max_concurrent (the constructors reject anything else)"]
+                  "0 < capacity, 0 < max_concurrent, 0 < parties (the constructors reject anything else)",
+                  "<comp>_trace_satisfies_spec for resource, mutex, semaphore, rwlock, barrier, condition, preemptible resource: no hypothesis on the operation list "
+                  "(every interleaving, malformed calls included)",
+                  "barrier_trips_exactly_at_nth_arrival: the reachable state is not broken (a broken barrier rejects every wait)",
+                  "pool_trace_satisfies_spec: the operation list is a schedule of generator segments with times, and Pool.SchedOk timeoutNs holds (decidable): no step "
+                  "answers `bad` (`made` only while a set-up is in flight, no `timeout` of a call that was already handed a connection), the id of a new `acq` is not "
+                  "currently waiting or handed (implied by pairwise distinct call ids: pool_trace_satisfies_spec_distinct), a `timeout id` only for a call that queued and "
+                  "not earlier than timeoutNs after its acq (the engine's timer); polls of calls that never queued, repeated timeouts, double releases are allowed",
+                  "limiter_trace_satisfies_spec: Conc.Start s0 (active = 0, 0 <= limit, dynamic: 0 <= min, 0 <= max — implied by what the constructors enforce, "
+                  "limiter_trace_satisfies_spec_constructed) and set_limit is called on the dynamic limiter only (the others have no such method)",
+                  "bulkhead_trace_satisfies_spec: stated over the driver's schedule lines (req/start/done/resp/tmo/fin with times; Bulkhead.finalSt_eq_run ties them to the "
+                  "operation list); Bulkhead.accepted (decidable): every line is one the harness can produce in that state (a start/done/response/timeout delivery only for a "
+                  "request in the corresponding stage, `fin` only when nothing is in flight and, with a wait limit, nothing queued) and request tags pairwise distinct",
+                  "tpool_trace_satisfies_spec: stated over the driver's schedule lines with times; TPool.wf (decidable): an accepted task id is new, no internal delivery "
+                  "answers `bad`, a `finish` comes at start + processing time for a running task, `fin` only with no task in service, and at the last line of every instant the "
+                  "pool is quiet (no internal event in transit; queue empty or all workers busy) — what the judge's end-of-instant clauses demand "
+                  "(tpool_trace_satisfies_spec_drained: no pending internal event at the end of an instant suffices)",
+                  "wait_is_silent: ProcInv s (holds along every run from every plain program: one_pending_continuation, wait_is_silent_program); the dichotomy "
+                  "'still blocked or woken by the resolution of its future' needs stepKeeps f (decidable): the code run by the step does not rebind slot f "
+                  "(fresh/any_of/all_of into f) and no second process parks on f — the wake-up future of acquire() is a local, and SimFuture raises on double parking"]
     partial_theorems = {
-        "wait_is_silent (DESIGN §8)": "not a Lean theorem: 'a blocked caller consumes no deliveries and resumes at the clock value of its "
-                                      "wake-up' is an engine-layer clause; it is judged on every engine transcript (*/wait/not-silent, "
-                                      "*/wait/resumed-late, */wait/clock-stuck) and the models' Pend layer predicts it, but no theorem about the engine is stated here (C02/C07)",
-        "semaphore / rwlock / pool": "state invariants over all operation lists (bounds, exclusion, conservation, head-not-grantable) are proved; the "
-                                     "trace-level statement 'the executable judge accepts the model trace' is proved for Resource and Mutex only",
-        "barrier / condition": "modelled, compared and judged; no theorem",
-        "bulkhead / thread pool / preemptible resource": "state invariants over all delivery / call lists are proved (HappyProofs/C09/ExtraProps.lean); the trace-level "
-                                                         "statement 'the executable judge accepts the model trace' is not",
-        "preemptible resource": "theorems are for wakeAfterPreempt = true (the tree with fixes/C09-extra-preempt-wake-after-preempt.diff); the current code's violation is "
-                                "preempt_current_leaves_head_grantable; until the patch is applied the generator does not emit the trigger (c09_extra.PREEMPT_RESTRICT)",
+        "wait_is_silent (DESIGN §8)": "proved on the engine + process layer (HappyModel/C01/Process.lean, lemmas of HappyProofs/C02) for every handler table and every "
+                                      "reachable state: a process parked on a future has no event in the heap, every loop iteration delivers nothing to it and leaves it "
+                                      "blocked or wakes it in that iteration with exactly one continuation stamped with that iteration's clock value, and along every run "
+                                      "nothing is delivered to it up to and including the release step (HappyProofs/C09/WaitSilent.lean; non-vacuity: the two-workers-on-a-mutex "
+                                      "scenario of DESIGN §9-7, contrast: the spinning variant). Gap: the composition with the operation-level models — that each call id in "
+                                      "`Out.woke` of Mutex/Semaphore/RWLock/Barrier/Condition/Resource.step is a `resolve` of the future that call parked on — is how the primitives are "
+                                      "written (the queued callback is `wake.resolve`) and is tied to the code by the differential check (`got` lines; */wait/not-silent, "
+                                      "*/wait/resumed-late, */wait/clock-stuck), not by a Lean refinement theorem. For arbitrary handler tables a third outcome exists (the wake-up "
+                                      "slot is overwritten and the wake-up lost); it is excluded by the decidable step hypothesis stepKeeps. wait_resumes_at_release_time assumes the "
+                                      "woken process is started and has code left (true of a parked generator; not a field of ProcInv)",
+        "trace theorems: judge mode": "<comp>_trace_satisfies_spec for Resource and the five sync primitives are for the judge's direct mode (engine = false): every clause on "
+                                      "results, wake lists and public counters. The engine-mode bookkeeping of the same judges (`resolved` / `got` / `fin`: a woken process resumes "
+                                      "exactly once, at the wake-up clock value, after zero deliveries) is not part of the trace theorems: it is the models' Pend layer, justified by "
+                                      "wait_is_silent on the engine layer and compared on every engine transcript",
+        "condition": "the model's `reacq` segment is an ordinary mutex acquire; that the driver's Pend layer lets a `reacq` run only for a notified call is part of the engine-mode "
+                     "bookkeeping above",
+        "preemptible resource": "theorems (incl. preempt_trace_satisfies_spec) are for wakeAfterPreempt = true, the repaired code "
+                                "(fixes/C09-extra-preempt-wake-after-preempt.diff, applied); for the unrepaired variant the violation is the decided witness "
+                                "preempt_current_leaves_head_grantable, on which the judge answers preempt/head/grantable-but-blocked (example in PreemptSpec.lean)",
         "not modelled": "ThreadPool with a LIFO or priority queue_policy, user completion hooks on requests sent through a Bulkhead, a Bulkhead in front of a "
                         "QueuedResource target (fixes/C09-extra-bulkhead-queued-target.md: the permit is returned when the target enqueues, not when it finishes), "
                         "PreemptibleResource inside an engine",
@@ -1330,6 +1358,25 @@ THEOREMS: list[str] = [
     "HappyModel.C09.pool_overshoots_max_current",
     "HappyModel.C09.limiter_active_le_limit",
     "HappyModel.C09.limiter_grant_respects_limit",
+    # trace level: the executable judge accepts the model's own transcript, for every operation list
+    "HappyModel.C09.semaphore_trace_satisfies_spec",
+    "HappyModel.C09.rwlock_trace_satisfies_spec",
+    "HappyModel.C09.barrier_trace_satisfies_spec",
+    "HappyModel.C09.condition_trace_satisfies_spec",
+    "HappyModel.C09.pool_trace_satisfies_spec",
+    "HappyModel.C09.pool_trace_satisfies_spec_distinct",
+    "HappyModel.C09.limiter_trace_satisfies_spec",
+    "HappyModel.C09.limiter_trace_satisfies_spec_constructed",
+    # barrier / condition clauses
+    "HappyModel.C09.barrier_trips_exactly_at_nth_arrival",
+    "HappyModel.C09.barrier_cohorts",
+    "HappyModel.C09.condition_notify_fifo",
+    "HappyModel.C09.condition_notify_wakes_first_n",
+    "HappyModel.C09.condition_woken_reacquires_mutex",
+    # engine + process layer (HappyModel/C01/Process.lean, lemmas of HappyProofs/C02)
+    "HappyModel.C09.wait_is_silent",
+    "HappyModel.C09.wait_is_silent_program",
+    "HappyModel.C09.wait_resumes_at_release_time",
 ]
 C09.theorems = THEOREMS + c09_extra.THEOREMS
 PROPERTY = C09()
